@@ -10,7 +10,7 @@ Representations exercised (all chosen by the case, i.e. by the harness' rng):
   * discount rate passed as float or int;
   * multi-step scenarios: the SAME policy object evaluated again on MDPs with re-ordered lists / on the same
     MDP, and a SECOND policy object evaluated on the already used MDP object;
-  * error paths of evaluate_on (expected exception type is reported back).
+  * inputs evaluate_on must reject (the exception type, or None when silently evaluated, is reported back).
 Everything is reported back in generator ids (ints), in the order msdm uses."""
 import os, sys
 from fractions import Fraction
